@@ -42,7 +42,7 @@ pub struct TreeId { pub _opaque: u64 }
 // `Node.name` is the STORED (escaped) name; `Node::name()` decodes it (\\xNN, \\uNNNN ... escapes): an arbitrary,
 // uninterpreted function of the stored text -- so plain-ness of the stored text says nothing about the decoded name
 pub uninterp spec fn decode_name(stored: Name) -> Name;
-pub struct Node { pub name: Name, pub subtree: Option<TreeId> }
+pub struct Node { pub name: Name, pub subtree: Option<TreeId>, pub content: Option<Vec<DataId>> }
 impl Node {
     #[verifier::external_body]
     pub fn name(&self) -> (r: Name) ensures r == decode_name(self.name), { unimplemented!() }
